@@ -97,6 +97,13 @@ class R1Obs(Observer):
 
 
 MUTANTS = [
+    ("membership look-up array kept between queries",
+     "AegeanTools/regions.py",
+     "        pixelset = self.get_demoted()\n"
+     "        result = np.isin(pix, list(pixelset))\n",
+     "        if getattr(self, '_lookup', None) is None:\n"
+     "            self._lookup = np.array(sorted(self.get_demoted()))\n"
+     "        result = np.isin(pix, self._lookup)\n", "C08-R12"),
     ("true division in renorm", "AegeanTools/regions.py",
      "self.pixeldict[d-1].add(p//4)", "self.pixeldict[d-1].add(p/4)",
      "C08-R1"),
@@ -235,6 +242,7 @@ def run(ctx):
     # ------------------------------------------------------------- R8
     r8(ctx, ci)
     r9_cache_alias(ctx, ci, "C08-R9")
+    r12_derived(ctx, ci, "C08-R12")
     r11_add(ctx, ci)
     from .. import precision
     precision.rule(
@@ -1330,3 +1338,54 @@ def _fmt(ab):
         return str(b)
     s = "maxdepth" if a == 1 else "%d*maxdepth" % a
     return s + ("%+d" % b if b else "")
+
+
+def r12_derived(ctx, ci, rule):
+    """Any further per-instance cache derived from the region's content is
+    dropped wherever the demoted cache is dropped."""
+    ctx.rule(rule, "derived caches: an instance attribute that a Region "
+             "method fills from the region's content (pixeldict / demoted / "
+             "get_demoted()) is reset on every path on which the demoted "
+             "cache is reset -- otherwise membership answers keep describing "
+             "the region as it was when first queried")
+    CONTENT = ("pixeldict", "demoted", "get_demoted")
+    derived = {}
+    for m, fi in ci.methods.items():
+        if m == "__init__":
+            continue
+        for st in walk_no_nested(fi.node):
+            if not isinstance(st, ast.Assign):
+                continue
+            for t in st.targets:
+                if isinstance(t, ast.Attribute) and norm(t.value) == "self" \
+                        and t.attr not in ("demoted", "pixeldict",
+                                           "maxdepth") and any(
+                            isinstance(x, ast.Attribute) and
+                            x.attr in CONTENT for x in ast.walk(st.value)):
+                    derived.setdefault(t.attr, []).append((fi, st))
+    ctx.ob(rule, "regions.Region", "derived caches: %s" %
+           (sorted(derived) or "none"), True, {}, ci.node)
+    for attr, fills in sorted(derived.items()):
+        for m, fi in ci.methods.items():
+            if m == "__init__":
+                continue
+            g = CFG(fi.node)
+            resets = [n for n, s_ in g.stmt.items()
+                      if g.kind[n] == "stmt" and is_cache_reset(s_)]
+            if not resets:
+                continue
+            xres = {n for n, s_ in g.stmt.items() if g.kind[n] == "stmt"
+                    and isinstance(s_, ast.Assign) and any(
+                        isinstance(t, ast.Attribute) and t.attr == attr
+                        and norm(t.value) == "self" for t in s_.targets)}
+            for r in resets:
+                before = any(g.dominates(x, r) for x in xres)
+                p_ = None if before else g.path_avoiding(r, EXIT, xres)
+                ctx.check(rule, fi, "self.%s dropped with the demoted cache "
+                          "in %s" % (attr, m), p_ is None,
+                          "self.%s (filled in %s from the region's content) "
+                          "survives this reset of the demoted cache: after "
+                          "the region changes here, %s keeps answering from "
+                          "the old content" %
+                          (attr, fills[0][0].short, fills[0][0].short),
+                          node=g.stmt[r])
